@@ -246,7 +246,7 @@ RWait ==
        THEN IF t[m.loopI + 1].state # "IDLE"
             THEN m' = [m EXCEPT !.pc = "rwaitpark"] /\ UNCHANGED <<c, t>>
             ELSE m' = [m EXCEPT !.loopI = @ + 1] /\ UNCHANGED <<c, t>>
-       ELSE /\ m' = [MInit EXCEPT !.nInit = m.nInit, !.calls = m.calls, !.reinits = m.reinits,
+       ELSE /\ m' = [MInit EXCEPT !.nInit = m.nInit, !.calls = m.calls, !.reinits = m.reinits, !.tailSz = m.tailSz,
                                   !.orderOk = m.orderOk, !.progressOk = m.progressOk]
             /\ c' = [c EXCEPT !.outq = <<>>, !.readPos = 0, !.threadErr = "OK", !.progressIn = 0, !.sigM = FALSE]
             /\ UNCHANGED t
